@@ -6,6 +6,8 @@ STR_KEYS = ['a', 'b', 'c', 'k', 'x', '_u', 'a', 'b', 'c', 'k', 'x', 'stages', 'x
 ODD_KEYS = ['x.y', 'my-key', 'k 1', 'a[0]', 'stages', '_u']
 P_ODD = 0.0     # extra probability of a key that is not a plain identifier (set by property modules)
 INT_KEYS = [0, 1, 2, -1, 3]
+FLOAT_KEYS = [1.5, 2.5]
+P_FLOATKEY = 0.08     # probability that the keys of one mapping may also be floats (yaml allows them; they used to break pruning, D34)
 SCALARS = [0, 1, 2, 7, -3, 'p', 'q', '', 'hello world', True, False, None, 1.5, 0.0, 'p', 'q', 1, "f'{b}'", 'true', '12']
 
 class Vocab:
@@ -74,6 +76,8 @@ def gen_items(rng, voc, depth, p_tag, nmax=3):
     n = rng.choice([0, 1, 2, 2, 3][:nmax + 2])
     keys = []
     pool = STR_KEYS + (INT_KEYS if voc.intkeys and rng.random() < 0.15 else [])
+    if rng.random() < P_FLOATKEY:
+        pool = pool + FLOAT_KEYS + FLOAT_KEYS
     while len(keys) < n:
         k = rng.choice(ODD_KEYS) if rng.random() < P_ODD else rng.choice(pool)
         if k not in keys:
